@@ -9,6 +9,8 @@ subprocess.check_call(["/venv/bin/python", str(V / "translator/translate.py"), "
 pins = {}
 for f in (V / "lean/YawVerif/Generated").glob("*.lean"):
     for m in re.finditer(r'def (pin\w+) : String := "([0-9a-f]+)"', f.read_text()):
+        if pins.get(m.group(1), m.group(2)) != m.group(2):
+            sys.exit(f"pin name {m.group(1)} is generated twice with different values")
         pins[m.group(1)] = m.group(2)
 for f in (V / "lean/YawVerif/Props").glob("*.lean"):
     s = f.read_text()
